@@ -34,6 +34,8 @@ func main() {
 		emitSched(os.Args[2:])
 	case "emit-stress":
 		emitStress(os.Args[2:])
+	case "emit-multi":
+		emitMulti(os.Args[2:])
 	default:
 		os.Exit(2)
 	}
@@ -250,4 +252,64 @@ func emitStress(args []string) {
 	}
 	fmt.Printf("{\"expected\":%d,\"delivered\":%d,\"distinct\":%d,\"duplicates\":%d,\"matched\":%d,\"count\":%d}\n",
 		g*per, n, len(seen), dup, stats.MatchedPairs, stream.GetIndex())
+}
+
+// emit-multi <streams> <goroutinesPerStream> <emitsEach> <dumps>: several streams, each with its
+// own Emitting, share one AppStats; a concurrent goroutine dumps the statistics.  Exactness:
+// per stream N distinct indices 0..N-1; matched pairs in dumps + residue = total emits.
+func emitMulti(args []string) {
+	ns, g, per, nd := atoi(args[0]), atoi(args[1]), atoi(args[2]), atoi(args[3])
+	stats := &api.AppStats{}
+	type sres struct{ delivered, distinct, count int }
+	results := make([]sres, ns)
+	var wg, cons sync.WaitGroup
+	for s := 0; s < ns; s++ {
+		s := s
+		stream := &mock.Stream{PcapId: fmt.Sprintf("s%d", s)}
+		ch := make(chan *api.OutputChannelItem, 1024)
+		em := &api.Emitting{AppStats: stats, Stream: stream, OutputChannel: ch}
+		cons.Add(1)
+		go func() {
+			defer cons.Done()
+			seen := map[int64]bool{}
+			n := 0
+			for it := range ch {
+				seen[it.Index] = true
+				n++
+			}
+			results[s] = sres{n, len(seen), int(stream.GetIndex())}
+		}()
+		var swg sync.WaitGroup
+		for i := 0; i < g; i++ {
+			wg.Add(1)
+			swg.Add(1)
+			go func() {
+				defer wg.Done()
+				defer swg.Done()
+				for k := 0; k < per; k++ {
+					em.Emit(&api.OutputChannelItem{})
+				}
+			}()
+		}
+		go func() { swg.Wait(); close(ch) }()
+	}
+	var dumped uint64
+	done := make(chan struct{})
+	go func() {
+		for k := 0; k < nd; k++ {
+			dumped += stats.DumpStats().MatchedPairs
+		}
+		close(done)
+	}()
+	wg.Wait()
+	cons.Wait()
+	<-done
+	dumped += stats.DumpStats().MatchedPairs
+	okStreams := 0
+	for _, r := range results {
+		if r.delivered == g*per && r.distinct == g*per && r.count == g*per {
+			okStreams++
+		}
+	}
+	fmt.Printf("{\"expected\":%d,\"matched\":%d,\"streams\":%d,\"streams_exact\":%d}\n", ns*g*per, dumped, ns, okStreams)
 }
